@@ -27,6 +27,9 @@ class Unsupported(Exception):
     pass
 
 
+_UWIDTH = {'u8': 8, 'u16': 16, 'u32': 32, 'u64': 64}
+
+
 class Interp:
     def __init__(self, facts, models=None, inline=None, max_states=20000):
         self.F = facts
@@ -171,6 +174,8 @@ class Interp:
             v = self.operand(env, rv[2])
             if rv[1] == 'Not' and v != TOP and v[0] == 'b':
                 return B(not v[1])
+            if rv[1] == 'Not' and v != TOP and v[0] == 'i' and rv[2][0] == 'k' and rv[2][2] in _UWIDTH and v[1] >= 0:
+                return I(~v[1] & ((1 << _UWIDTH[rv[2][2]]) - 1))  # bitwise complement of an unsigned constant of known width
             return TOP
         if k == 'bin':
             a = self.operand(env, rv[2])
@@ -205,6 +210,10 @@ class Interp:
                         return I(x >> y)
                     if op == 'Shl' and 0 <= y < 64:
                         return I(x << y)
+                    if op == 'Rem' and x >= 0 and y > 0 and a[0] == 'i' and b[0] == 'i':
+                        return I(x % y)
+                    if op == 'Div' and x >= 0 and y > 0 and a[0] == 'i' and b[0] == 'i':
+                        return I(x // y)
                 except Exception:
                     return TOP
             return TOP
